@@ -2,7 +2,7 @@
    Proofs.v / MGProofs.v and followed by Print Assumptions.  Arithmetic is exact
    (Qc, the ordered field of canonical rationals; every binary64 input is such a number). *)
 From Coq Require Import QArith Qcanon List Arith Bool ZArith.
-From Verif.C11 Require Import Spec Algebra Model Proofs.
+From Verif.C11 Require Import Spec Algebra Model Proofs MGProofs.
 Import ListNotations.
 Open Scope Qc_scope.
 
@@ -115,6 +115,45 @@ Theorem subspace_correction_energy_identity : forall n A b xs x d,
   energy n A xs (fun k => x k + d k) = energy n A xs x - dotn n d (mv n A d).
 Proof. exact subspace_correction_energy. Qed.
 Print Assumptions subspace_correction_energy_identity.
+
+(* Local multigrid cycle (solvers.local_mg_step), any number of levels >= 2, any of the five
+   smoothers, any number of smoothing steps, any prolongators and smoothing sets satisfying
+   [good] (dimensions fit; smoothing sets lie in D and have nonzero diagonal; the exact
+   sub-solvers map 0 to 0, as every linear solver does; restriction P^T maps vectors vanishing
+   on D to vectors vanishing on the coarser level's set): a vector whose residual f - A x
+   vanishes on D -- the exact discrete solution, D = the non-Dirichlet dofs -- is returned
+   unchanged by one cycle. *)
+Theorem mg_fixed_point : forall sm steps ind0 B0 L rest n D x f,
+  good ind0 B0 n D (L :: rest) -> length x = n -> length f = n ->
+  vanishes D (vsub f (dmv (lvA L) x)) ->
+  mg_step sm steps ind0 B0 (L :: rest) x f = x.
+Proof. exact mg_fixed_point_l. Qed.
+Print Assumptions mg_fixed_point.
+
+(* One level (numlevels = 1): the cycle is the direct solve on lv_inds[0]; x is returned
+   unchanged exactly under the hypothesis the code needs: x already carries the solve's
+   result there (true for the exact solution with homogeneous Dirichlet values). *)
+Theorem mg_fixed_point_one_level : forall sm steps ind0 B0 x f,
+  gather ind0 x = B0 (gather ind0 f) -> mg_step sm steps ind0 B0 [] x f = x.
+Proof. exact mg_one_level_l. Qed.
+Print Assumptions mg_fixed_point_one_level.
+
+(* NOT PROVED (full statement mg_exact_energy_monotone): for symmetric positive semi-definite A,
+   smoother = exact and sub-solvers B_l with (A_l)_{II} (B_l r) = r, every cycle satisfies
+     energy n A xs (vget (mg_step SmExact steps ind0 B0 levels x f)) <= energy n A xs (vget x)
+   for every number of levels.  Missing: the algebra of the Galerkin product on list matrices,
+   J_l(x + P y) = J_l(x) + J_{l-1}(y; P^T (f - A x)) with J(x) = x^T A x - 2 x^T f, which turns the
+   statement into an induction over the levels (each exact solve lowers J by the lemma below and
+   the coarse cycle started from 0 lowers J_{l-1} from 0).  Proved instead: every single exact
+   subspace solve of the cycle (pre-smoothing on lv_inds[l], coarsest solve) is a correction d
+   with (A d)_k = (b - A x)_k on its support and therefore does not increase the energy.  The
+   full statement is evaluated on the implementation on every run (exact smoother, 3 cycles). *)
+Theorem mg_exact_energy_monotone_partial : forall n A b xs x d,
+  symmetric n A -> psd n A ->
+  (forall k, (k < n)%nat -> d k = 0 \/ (mv n A d k = b k - mv n A x k /\ mv n A xs k = b k)) ->
+  energy n A xs (fun k => x k + d k) <= energy n A xs x.
+Proof. exact exact_correction_energy. Qed.
+Print Assumptions mg_exact_energy_monotone_partial.
 
 (* iterative_solve (and with it solve_hmultigrid, which calls it with the local
    multigrid cycle as `step`) returns (x, k) only when x is the k-th iterate, the
